@@ -1,6 +1,6 @@
 #!/venv/bin/python
 """Applies every behaviour-preserving patch in a directory (refactor_*.diff) to its own scratch copy of /repo's current tree and runs all quick checks on it.
-Any exit != 0 is a false alarm (1) or a lost decision (2) of the checker.  usage: refac_eval.py <dir> [--jobs N]"""
+Any exit != 0 is a false alarm (1) or a lost decision (2) of the checker.  usage: refac_eval.py <dir> [--jobs N] [--rename] [--props C03,C05]"""
 import sys, os, subprocess, tempfile, shutil, glob, concurrent.futures as cf
 HERE = os.path.dirname(os.path.dirname(os.path.abspath(__file__)))
 sys.path.insert(0, os.path.join(HERE, "selftest"))
@@ -8,6 +8,8 @@ import run as st
 sys.path.insert(0, os.path.join(HERE, "tools"))
 RENAME = "--rename" in sys.argv
 PROPS = "C01 C02 C03 C04 C05 C06 C07 C08 C09 C10 C11 C12 C13 C14 C16 C17 C18 C19 C20".split()
+if "--props" in sys.argv:          # restrict to some properties (after a change to their rules only)
+  PROPS = sys.argv[sys.argv.index("--props") + 1].split(",")
 
 
 def one(patch):
